@@ -38,13 +38,12 @@ PROPS = {
         ],
     },
     "C11": {
-        "modules": [T + "C11"],
+        "modules": [T + "C11", T + "TablesLimits"],
         "theorems": [(T + "C11.processed_len_spec", T + "C11"),
                      (T + "C11.counters_bounded", T + "C11"),
                      (T + "C11.update_len_no_overflow", T + "C11"),
                      (T + "C11.too_large_iff", T + "C11"),
-                     (T + "C01.tables", T + "C01")],
-        "modules_extra": [T + "C01"],
+                     (T + "Tables.limits", T + "TablesLimits")],
         "extract_keys": ["length MAX", "TOP_VALUE", "length thresholds", "WINDOW_SIZE"],
         "spec_is_property": True,
         "streams": {
@@ -95,11 +94,11 @@ PROPS = {
         ],
     },
     "C10": {
-        "modules": [T + "C10", T + "C01"],
+        "modules": [T + "C10", T + "TablesLimits"],
         "theorems": [(T + "C10.length_error_iff", T + "C10"),
                      (T + "C10.finalize_mono", T + "C10"),
                      (T + "C10.quarter_implies_half", T + "C10"),
-                     (T + "C01.tables", T + "C01")],
+                     (T + "Tables.limits", T + "TablesLimits")],
         "extract_keys": ["length thresholds", "length MAX", "option flags", "FuzzyHashBucketMapper"],
         "spec_is_property": False,
         "streams": {
@@ -116,7 +115,7 @@ PROPS = {
         ],
     },
     "C09": {
-        "modules": [T + "C09", T + "C01"],
+        "modules": [T + "C09", T + "TablesLength", "TlshVerif.Ref.Justify"],
         "theorems": [(T + "C09.encode_eq_least", T + "C09"),
                      (T + "C09.encode_defined", T + "C09"),
                      (T + "C09.encode_some_iff", T + "C09"),
@@ -127,8 +126,8 @@ PROPS = {
                      (T + "C09.range_none_iff", T + "C09"),
                      (T + "C09.range_nonempty", T + "C09"),
                      (T + "C09.lengthCode_lt_170", T + "C09"),
-                     (T + "C01.tables", T + "C01"),
-                     ("TlshVerif.Ref.topval_increasing", T + "C01")],
+                     (T + "Tables.length", T + "TablesLength"),
+                     ("TlshVerif.Ref.topval_increasing", "TlshVerif.Ref.Justify")],
         "extract_keys": ["TOP_VALUE", "ENCODED_VALUE_SIZE", "length MAX"],
         "spec_is_property": True,
         "streams": {
@@ -290,7 +289,8 @@ PROPS = {
         "spec_is_property": False,
         "ignore_spec_mm": True,
         "streams": {
-            "quick": [("default", "cmp", 4000), ("optdef", "cmp", 1500), ("embedded", "cmp", 1500)],
+            "quick": [("default", "cmp", 4000), ("optdef", "cmp", 1500), ("embedded", "cmp", 1500),
+                      ("static-sse2", "cmp", 1000), ("static-sse41", "cmp", 1000)],
             "thorough": [("default", "cmp", 150000), ("optdef", "cmp", 50000), ("embedded", "cmp", 50000),
                          ("naive", "cmp", 50000), ("static-sse2", "cmp", 30000), ("unsafe", "cmp", 30000)],
         },
@@ -344,8 +344,8 @@ PROPS = {
                      (T + "C15.strict_eq_lenient_then_checks_bytes", T + "C15"),
                      (T + "C15.generated_strict_valid", T + "C15"),
                      (T + "C15.strict_roundtrip_generated", T + "C15"),
-                     (T + "C01.tables", T + "C01"), (T + "C04.tables", T + "C04")],
-        "modules_extra": [T + "C01", T + "C04"],
+                     (T + "Tables.strict", T + "TablesStrict"), (T + "C04.tables", T + "C04")],
+        "modules_extra": [T + "TablesStrict", T + "C04"],
         "extract_keys": ["short checksum validity", "ENCODED_VALUE_SIZE", "SUBST_TABLE_48"],
         "spec_is_property": True,
         "streams": {
